@@ -78,7 +78,8 @@ Logical(g) ==
 \* "nonfinite"  NaN / +-inf are written as JSON null and come back as no property
 \* "ghost"      export walks the CSR segments without a liveness check: deleted relationships come back (type "")
 \* "tagged"     a map with a "__type" key is read back as the tagged scalar it looks like
-DevNames == {"trim", "nolabel", "versions", "nonfinite", "ghost", "tagged"}
+\* "hiercycle"  a hierarchy declaration whose covering relation has a cycle in the exported graph is not re-created
+DevNames == {"trim", "nolabel", "versions", "nonfinite", "ghost", "tagged", "hiercycle"}
 TrimTok(t) == CASE t = "s: lead" -> "s:lead" [] t = "s:trail " -> "s:trail" [] t = "s: " -> "s:"
                 [] t = "a:[s: pad ]" -> "a:[s:pad]" [] OTHER -> t
 NonFinite == {"f:nan", "f:inf", "f:-inf"}
@@ -118,6 +119,14 @@ Imported(g, D) ==
 Effective(g, D) == \A d \in D : Exported(g, D \ {d}) # Exported(g, D)
 
 HierOf(g) == g.hier
+\* the covering relation of the declared relationship types has a directed cycle (<= 3 hops suffice for <= 3 nodes;
+\* in general: some node reaches itself)
+HasCycle(g, types) ==
+    LET E == {<<g.rels[h].src, g.rels[h].dst>> : h \in {x \in DOMAIN g.rels : g.rels[x].type \in types}}
+        N == DOMAIN g.nodes
+        RECURSIVE Reach(_, _)
+        Reach(S, k) == IF k = 0 THEN S ELSE Reach(S \cup {e[2] : e \in {x \in E : x[1] \in S}}, k - 1)
+    IN \E n \in N : n \in Reach({e[2] : e \in {x \in E : x[1] = n}}, Cardinality(N))
 \* what the harness observed: dump of the imported store, its hierarchy declarations
 HierSeqToSet(s) == {[name |-> s[i].name, types |-> SeqSet(s[i].types), measure |-> s[i].measure, ops |-> SeqSet(s[i].ops)] : i \in DOMAIN s}
 
